@@ -119,14 +119,14 @@ type EffectCall struct {
 // Interp executes extracted functions. Stubs supplies the environment the function lives in
 // (other contract functions, fields); unknown *effect* built-ins are recorded and ignored.
 type Interp struct {
-	C       *Contracts
-	File    *RFile
-	Fields  map[string]RVal                              // contract fields / parameters visible as identifiers
-	Stubs   map[string]func(args []RVal) ([]RVal, error) // user-defined functions called by name (also "obj.method")
-	Effects []string
+	C           *Contracts
+	File        *RFile
+	Fields      map[string]RVal                              // contract fields / parameters visible as identifiers
+	Stubs       map[string]func(args []RVal) ([]RVal, error) // user-defined functions called by name (also "obj.method")
+	Effects     []string
 	EffectCalls []EffectCall
-	Emitted [][]RVal
-	steps   int
+	Emitted     [][]RVal
+	steps       int
 }
 
 var u256Max = new(big.Int).Sub(new(big.Int).Lsh(big.NewInt(1), 256), big.NewInt(1))
